@@ -12,7 +12,7 @@ func init() {
 	register(&propCheck{
 		id:    "C18",
 		level: "other",
-		explanation: "Static necessary conditions of 'subprocess results are faithful': (M1) in Execute the start message dominates the run and every path from the run to an exit passes exactly one end message carrying the run's own result; (M2) what Execute returns after the run derives from the run's result only, through the command-error conversion, and that conversion returns nil only for a nil error (or ESRCH); (M3) a writer that tokenises each Write call on a line separator and forwards the pieces must carry the trailing fragment from one call to the next (a field it both reads and writes) — otherwise every line that straddles two pipe reads is delivered as two messages; violated by logStreamer in the pinned sources (known finding K4: the repair needs a buffer, a flush point after Wait and a decision about an unterminated last line); (M4) the stream adapter sends each non-empty piece to exactly one of Log / LogError according to its stream flag, in a loop without early exit, and reports the whole chunk as written; stdout gets the output adapter, stderr the error adapter, both on the command's loggers; (M5) Output() returns the content of the string logger that is a member of the loggers the subprocess writes to, read after Execute returned. Decided on SSA; no process is started. Not decided: output fidelity for actual write patterns and volumes (pipe chunking at run time), exit-status values.",
+		explanation: "Static necessary conditions of 'subprocess results are faithful': (M1) in Execute the start message dominates the run and every path from the run to an exit passes exactly one end message carrying the run's own result; (M2) what Execute returns after the run derives from the run's result only, through the command-error conversion, and that conversion returns nil only for a nil error (or ESRCH); (M7) where the run failed and the subprocess's own context is done, Execute returns that context's error — 'an error (of context kind if it was cancelled)' — and nowhere else does anything but the run's result reach the caller; (M3) a writer that tokenises each Write call on a line separator and forwards the pieces must carry the trailing fragment from one call to the next (a field it both reads and writes) — otherwise every line that straddles two pipe reads is delivered as two messages; violated by logStreamer in the pinned sources (known finding K4: the repair needs a buffer, a flush point after Wait and a decision about an unterminated last line); (M4) the stream adapter sends each non-empty piece to exactly one of Log / LogError according to its stream flag, in a loop without early exit, and reports the whole chunk as written; stdout gets the output adapter, stderr the error adapter, both on the command's loggers; (M5) Output() returns the content of the string logger that is a member of the loggers the subprocess writes to, read after Execute returned. Decided on SSA; no process is started. Not decided: output fidelity for actual write patterns and volumes (pipe chunking at run time), exit-status values.",
 		run:   runC18,
 		assumptions: []string{
 			"os/exec copies everything the child writes to cmd.Stdout/cmd.Stderr in order, in arbitrary chunks",
@@ -23,6 +23,7 @@ func init() {
 func runC18(c *Ctx) {
 	c.rule("M1", "Execute: LogStart() dominates the run; every path from the run to an exit passes exactly one LogEnd(e) with e the run's result", 2)
 	c.rule("M2", "Execute returns the run's result (converted by ConvertCommandError/ConvertProcessError only); the conversion yields nil only for a nil error or ESRCH", 3)
+	c.rule("M7", "Execute reports a failed run whose process context is done with that context's error (cancelled / timeout kind), and only then", 1)
 	c.rule("M3", "an io.Writer that splits each chunk on a line separator and forwards the pieces keeps the trailing fragment in a field it both reads and writes", 1)
 	c.rule("M4", "logStreamer: each non-empty piece goes to exactly one of Log/LogError by the stream flag, no early exit, n=len(p); Stdout/Stderr get the out/err adapters over the command's loggers", 4)
 	c.rule("M6", "stop(): IsOn() is re-validated under the object's mutex before the command is stopped and an end message logged (exactly one end message per run across Execute and the monitor's Stop)", 1)
@@ -84,7 +85,7 @@ func runC18(c *Ctx) {
 		if !sameValue(arg, run) && stripConv(arg) != ssa.Value(run) {
 			only := true
 			for _, l := range sources(arg, deriveOpts{}) {
-				if l != ssa.Value(run) {
+				if l != ssa.Value(run) && !ctxErrorInstead(l, run) {
 					only = false
 				}
 			}
@@ -105,12 +106,29 @@ func runC18(c *Ctx) {
 		}
 		n++
 		for _, l := range sources(r.Results[0], deriveOpts{}) {
-			if l != ssa.Value(run) {
+			if l != ssa.Value(run) && !ctxErrorInstead(l, run) {
 				bad = c.ipos(r)
 			}
 		}
 	})
 	c.check(bad == "" && n > 0, "M2", fname(exec)+"/result", c.ipos(run), "Execute returns exactly the run's result", "the value returned at "+bad+" is not (only) the result of running the child")
+	// M7: "(of context kind if it was cancelled)": a killed child ends with 'signal: killed', which the conversion turns
+	// into os.ErrProcessDone — not a context kind. The context's own error has to take its place where the run failed
+	// and the context is done.
+	hasCtx := false
+	allInstrs(exec, func(in ssa.Instruction) {
+		r, ok := in.(*ssa.Return)
+		if !ok || !dominates(run, r) {
+			return
+		}
+		for _, l := range sources(r.Results[0], deriveOpts{}) {
+			if ctxErrorInstead(l, run) {
+				hasCtx = true
+			}
+		}
+	})
+	c.check(hasCtx, "M7", fname(exec)+"/context-kind", c.ipos(run), "a failed run whose process context is done is reported with the context's error",
+		"Execute never substitutes the error of the subprocess's context for the run's: a cancelled or timed-out Execute returns the way the killed process ended ('os: process already finished'), which is not of 'cancelled'/'timeout' kind")
 	// cmdWrapper.Run returns ConvertCommandError(cmd.Run())
 	{
 		okW := false
@@ -446,4 +464,36 @@ func (c *Ctx) c18Output() {
 		}
 	}
 	c.check(good, "M5", fname(f), c.pos(f.Pos()), "string logger ∈ combined loggers → subprocess; content read after Execute", why)
+}
+
+// ctxErrorInstead: l is the error of the subprocess's own context (DetermineContextError(…ProcessContext())) and
+// it takes the place of the run's result only where both are non-nil — "an error (of context kind if it was
+// cancelled)": a failed run is reported as the cancellation that caused it, a successful run stays nil, and a run
+// that failed while the context is alive keeps its own error.
+func ctxErrorInstead(l ssa.Value, run ssa.Value) bool {
+	cl, ok := l.(*ssa.Call)
+	if !ok || !strings.HasSuffix(calleeFull(&cl.Call), "parallelisation.DetermineContextError") || len(cl.Call.Args) != 1 {
+		return false
+	}
+	fromProcessCtx := false
+	for _, a := range sources(cl.Call.Args[0], deriveOpts{}) {
+		if ac, ok := a.(*ssa.Call); ok && strings.HasSuffix(calleeFull(&ac.Call), ".ProcessContext") {
+			fromProcessCtx = true
+		}
+	}
+	if !fromProcessCtx || cl.Referrers() == nil {
+		return false
+	}
+	stores := 0
+	for _, r := range *cl.Referrers() {
+		st, ok := r.(*ssa.Store)
+		if !ok {
+			continue
+		}
+		stores++
+		if !onNonNilSide(run, st) || !onNonNilSide(cl, st) {
+			return false
+		}
+	}
+	return stores > 0
 }
